@@ -9,7 +9,7 @@
    the message; the 256-byte version is refuted in C15_long_address_regress).
    [op_ok]: advance-clock steps are non-negative. *)
 From Coq Require Import List ZArith.
-From RtoscV Require Import Undo.UndoModel Undo.UndoProofs Undo.UndoRegress Undo.UndoPortsModel Undo.UndoPortsProofs.
+From RtoscV Require Import Undo.UndoModel Undo.UndoProofs Undo.UndoRegress Undo.UndoPortsModel Undo.UndoPortsProofs Undo.UndoPortsTotal.
 Import ListNotations.
 Local Open Scope Z_scope.
 
@@ -140,8 +140,10 @@ Proof. exact e2e_nonvacuous. Qed.
    equality differ); the clock does not run backwards.
    [abs U t a] is the value of the field element the address names.
 
-   After any such history that the model runs (None = a callback would read
-   outside its field), seeking back over everything delivers every undo message
+   Every such history is run by the model to its end (C15_ports_total below:
+   None = a callback would read outside its field or meet an argument its
+   specification does not promise - excluded for all of them, so the premise
+   "prun ... = Some" is no restriction); seeking back over everything delivers every undo message
    to a port (ports reached = messages) and returns every parameter to the value
    it had before its oldest retained change; seeking forward returns the latest
    values.  The fields stay inside their ranges. *)
@@ -174,6 +176,22 @@ Theorem C15_ports_invariant : forall ps U ops st st',
   table_ok ps -> one_spelling ps U -> pinv ps U st -> Forall (pop_ok ps U) ops ->
   prun ops st = Some st' -> pinv ps U st'.
 Proof. exact prun_inv. Qed.
+
+(* totality: on a well-formed table every operation of the quantifier - a set
+   message that reaches any port of the table (numeric, option, toggle, array,
+   rParams alias), a seek, a clock step - is executed (never None) and keeps
+   the invariant; hence every history of the quantifier runs to its end.  The
+   premise "prun ops (t0, init) = Some (t, s)" of C15_ports_undo_all and
+   "prun ops st = Some st'" of C15_ports_invariant always holds. *)
+Theorem C15_ports_step_total : forall ps U st o,
+  table_ok ps -> one_spelling ps U -> pinv ps U st -> pop_ok ps U o ->
+  exists st' ms n, pstep st o = Some (st', ms, n) /\ pinv ps U st'.
+Proof. exact pstep_total. Qed.
+
+Theorem C15_ports_total : forall ps U t0 ops,
+  table_ok ps -> one_spelling ps U -> ports t0 = ps -> cells_ok t0 -> Forall (pop_ok ps U) ops ->
+  exists t s, prun ops (t0, init) = Some (t, s) /\ pinv ps U (t, s).
+Proof. exact prun_total_init. Qed.
 
 (* the hypotheses are satisfiable: a clamped rParamI, an rArrayI and an rToggle *)
 Theorem C15_nonvacuous_ports :
